@@ -45,6 +45,8 @@ class Conn:
             raise ConnectionError("scripted send failure")
         if getattr(self, "send_style", None):
             await asyncio.sleep(0)                # the write completes a little later
+        if isinstance(m, str):
+            m.encode("utf-8")                     # text frames are UTF-8 on the wire
         self.rec.log("send", m)
 
     def send(self, m):
